@@ -256,6 +256,24 @@ struct Runner {
                 api(84, [&] { return xcm_set_blocking(sv.s, false); });
                 if (s) api(84, [&] { return xcm_set_blocking(s, false); });
             }
+            // an accept whose attribute map carries a TCP value XCM admits and the kernel refuses
+            // (keepalive count above 127): the accept fails after the connection was taken from the queue
+            if (!s && !blk && (op.x & 4) && sv.tp >= 2) {
+                struct xcm_attr_map *am = xcm_attr_map_create();
+                xcm_attr_map_add_int64(am, "tcp.keepalive_count", 200);
+                for (int i = 0; i < 60; i++) {
+                    s = api(70 + op.a % 6, [&] { return xcm_accept_a(sv.s, am); });
+                    e = errno;
+                    if (s || e != EAGAIN) break;
+                    for (auto &c : slots) if (c.s && !c.server) api(80, [&] { return xcm_finish(c.s); });
+                    usleep(300);
+                }
+                xcm_attr_map_destroy(am);
+                log("#%d accept(server slot %d) with tcp.keepalive_count=200 -> %s", idx, op.b % 6, s ? "ok" : errname(e));
+                if (s) { fail("xcm_accept_a produced a connection although the kernel refuses tcp.keepalive_count=200"); api(90, [&] { return xcm_close(s); }); }
+                else if (e == 0) fail("xcm_accept_a returned NULL with errno 0");
+                return;
+            }
             for (int i = 0; i < 60 && !s; i++) {
                 s = api(70 + op.a % 6, [&] { return xcm_accept(sv.s); });
                 e = errno;
@@ -605,6 +623,7 @@ public:
         VF_CHECK(base.code == 0, "C08 (no fault injected): %s", base.msg.c_str());
         c.log("fault-free: %d resource-creating calls: %s", base.ncalls, base.names.c_str());
         if (trace.find("blocking accept(") != std::string::npos) c.cls("blocking-accept");
+        if (trace.find("with tcp.keepalive_count=200 -> EINVAL") != std::string::npos) c.cls("accept-fails-after-taking-the-connection");
         count("programs");
         // ---- every resource-creating call x every plausible errno
         std::vector<std::string> names;
